@@ -253,6 +253,22 @@ func extractBlockMgr() {
 		r := strings.Index(body, "RollbackLastBlock(")
 		lowers = r >= 0 && a > r && m > a && u > m && strings.Contains(body, "b.filterHeaderTipHash = ")
 	}
+	// ... and removes the block header from the store BEFORE it announces the block as disconnected
+	removeFirst := false
+	if rb != nil {
+		rm, nt := token.Pos(-1), token.Pos(-1)
+		for _, c := range calls(rb.Body) {
+			if c.name == "b.cfg.BlockHeaders.RollbackLastBlock" && rm < 0 {
+				rm = c.pos
+			}
+			if c.name == "b.onBlockDisconnected" && nt < 0 {
+				nt = c.pos
+			}
+		}
+		removeFirst = rm >= 0 && nt > rm
+	}
+	l.def("rollbackRemovesBeforeNotify", "Bool", lbool(removeFirst), "rollBackToHeight calls BlockHeaders.RollbackLastBlock before onBlockDisconnected")
+
 	l.def("rollbackLowersFilterTip", "Bool", lbool(lowers), "rollBackToHeight lowers filterHeaderTip(+Hash) under newFilterHeadersMtx after rolling the filter store back")
 
 	// the notification channel is a rendezvous: `blockNtfnChan: make(chan blockntfns.BlockNtfn)` with
